@@ -197,7 +197,9 @@ impl PriceLookup {
                     .filter(|e| {
                         used_commodities.contains(&e.base_commodity)
                             && e.eq_commodity == in_commodity
-                            && e.timestamp < lookup_timestamp
+                            // last-price: every entry counts, also one stamped at Timestamp::MAX
+                            && (matches!(self, PriceLookup::LastPriceDbEntry)
+                                || e.timestamp < lookup_timestamp)
                     })
                     .map(|e| (e.base_commodity.clone(), (e.timestamp.clone(), e.eq_amount)))
                     .collect(),
